@@ -72,6 +72,8 @@ def close_prob(got, exact_log, mag, prec):
         return got == 0.0
     p = mp.exp(exact_log)
     tol_l = K * EPS[prec] * (1 + mag)
+    if math.isinf(got):      # only acceptable where the error budget of the log value itself reaches past the format's range
+        return exact_log + tol_l > mp.log(FMAX[prec])
     tol = p * mp.expm1(tol_l) + K * EPS[prec] * p + TINY[prec]
     return abs(mp.mpf(got) - p) <= tol
 
